@@ -211,3 +211,23 @@ func Harness_C17_q_kernels_arbitrary_input() {
 	verif.Assert(!p2, "nopanic-typed-read-of-arbitrary-input")
 	verif.Reach("end")
 }
+
+// writeBytes / readBytes for EVERY value length 0..800 (0..3 fragments and beyond): the wire
+// is the reference fragmentation and the value comes back.
+func Harness_C17_q_bytes_every_length() {
+	tag := verif.U8("tag")
+	n := verif.Choice("len", 801)
+	v := verif.Bytes("v", n)
+	w := newWriter()
+	w.writeBytes(tag, v)
+	if !kkWire(w.bytes(), kkRef(tag, v), "wire-is-little-endian-tlv8") {
+		return
+	}
+	r, err := newReader(bytes.NewBuffer(append([]byte{}, w.bytes()...)))
+	verif.Assert(err == nil, "reference-encoding-parses")
+	if err == nil && n > 0 {
+		g, err := r.readBytes(tag)
+		verif.Assert(err == nil && verif.Eq(g, v), "read-back-bytes")
+	}
+	verif.Reach("end")
+}
